@@ -49,7 +49,7 @@ CLASSES = ["deferred/family:whfast", "deferred/family:saba", "deferred/family:me
 VARIANTS = ["avx512"] if build.has_avx512() else []
 
 EPS = 2.220446049250313e-16
-K_ROUND = float(os.environ.get("C09_K", "4096"))
+K_ROUND = float(os.environ.get("C09_K", "16"))
 EOS_SAFETY = float(os.environ.get("C09_EF", "2.0"))
 
 # ---------------------------------------------------------------------------------------
@@ -79,14 +79,19 @@ SAFE_PATH = {"whfast": "ri_whfast.safe_mode", "saba": "ri_saba.safe_mode", "merc
 KEEP_PATH = {"whfast": "ri_whfast.keep_unsynchronized", "saba": "ri_saba.keep_unsynchronized",
              "whfast512": "ri_whfast512.keep_unsynchronized"}
 
-dt_frac = st.one_of(st.sampled_from([0.05, 0.02, 0.01, 0.002]), S.floats(0.002, 0.05))
+# half of the cases use the largest step: the terms a wrong merge loses scale as eps_mass * dt^3
+dt_frac = st.one_of(st.sampled_from([0.05, 0.05, 0.05, 0.02, 0.01, 0.002]), S.floats(0.002, 0.05))
 dt_sign = st.sampled_from([1, 1, -1])
 
 
 @st.composite
 def system_tp(draw, nmin=2, nmax=5):
     """hierarchical system, optionally with the outer bodies turned into test particles"""
-    sy = draw(S.hierarchical_system(nmin=nmin, nmax=nmax, allow_massless=True))
+    # planet masses 1e-6..1e-3 of the star: the correctors / merged kicks under test act on the planet-planet
+    # interaction, whose size relative to rounding is proportional to the planet masses
+    # (half of the systems have all planets in the upper half-decade: second-order terms scale with mass^2)
+    sy = draw(S.hierarchical_system(nmin=draw(st.sampled_from([nmin, min(3, nmax)])), nmax=nmax, allow_massless=True,
+                                    mass_lo=draw(st.sampled_from([1e-5, 3e-4])), mass_hi=1e-3))
     n = len(sy["particles"])
     mode = draw(st.sampled_from(["all_active", "all_active", "tp0", "tp1"]))
     if mode != "all_active" and n >= 3:
@@ -107,7 +112,7 @@ def system512(draw):
     parts = []
     pmin = None
     for s in range(ns):
-        sy = draw(S.hierarchical_system(nmin=npl + 1, nmax=npl + 1, G=1.0))
+        sy = draw(S.hierarchical_system(nmin=npl + 1, nmax=npl + 1, G=1.0, mass_lo=1e-5, mass_hi=1e-3))
         parts += sy["particles"]
         pmin = sy["P_min"] if pmin is None else min(pmin, sy["P_min"])
     return {"G": 1.0, "particles": parts, "P_min": pmin, "N_systems": ns}
@@ -236,6 +241,33 @@ def advance(sim, how, n, frac=0.5, each_step=None, mult=1):
         each_step(sim)
 
 
+SABA_STAGES = {"1": 1, "2": 2, "3": 3, "4": 4, "10,4": 7, "8,6,4": 7, "10,6,4": 8, "h8,4,4": 6, "h8,6,4": 8, "h10,6,4": 9}
+
+
+def ops_per_step(cfg):
+    """Condition number of the rounding comparison: the number of elementary operator applications (Kepler
+    drifts, kicks, coordinate transformations) one safe-mode step performs.  Every one contributes O(eps) relative
+    rounding error; the symplectic correctors are long chains of drifts and kicks that cancel almost exactly
+    (corrector 17: 16 Z-operators of 3 drifts + 2 kicks, applied and inverted every safe-mode step)."""
+    sets = dict((p, v) for p, v in cfg["set"])
+    fam = cfg["family"]
+    if fam == "whfast":
+        ops = 5 + {"default": 0, "modifiedkick": 2, "lazy": 3, "composition": 13}[sets["ri_whfast.kernel"]]
+        k = sets["ri_whfast.corrector"]
+        if k:
+            ops += 10 * (k - 1)
+        if sets["ri_whfast.corrector2"]:
+            ops += 56
+        return ops
+    if fam == "saba":
+        t = sets["ri_saba.type"]
+        ops = 5 + 3 * SABA_STAGES[t[2:] if t[:2] in ("cm", "cl") else t]
+        if t[:2] in ("cm", "cl"):
+            ops += 6
+        return ops
+    return 5
+
+
 def scales(pf):
     sx = max(math.sqrt(p[0] ** 2 + p[1] ** 2 + p[2] ** 2) for p in pf)
     sv = max(math.sqrt(p[3] ** 2 + p[4] ** 2 + p[5] ** 2) for p in pf)
@@ -297,8 +329,9 @@ def run_deferred(case, ctx):
             return
         sx, sv = scales(pa)
         dx, dv = maxdiff(pa, pb) if finite(pb) else (float("inf"), float("inf"))
-        tolx = K_ROUND * EPS * (done + 4) * sx
-        tolv = K_ROUND * EPS * (done + 4) * sv
+        cond = ops_per_step(case["cfg"]) * (done + 4)
+        tolx = K_ROUND * EPS * cond * sx
+        tolv = K_ROUND * EPS * cond * sv
         ctx.stat_max("ratio_x", dx / tolx)
         ctx.stat_max("ratio_v", dv / tolv)
         ctx.stat_max("ratio_%s" % fam, max(dx / tolx, dv / tolv))
@@ -358,8 +391,8 @@ def run_eos(case, ctx):
         ok = finite(pb) and finite(pb2)
         ebx, ebv = maxdiff(pb, pb2) if ok else (0.0, 0.0)
         dx, dv = maxdiff(pa, pb) if ok else (float("inf"), float("inf"))
-        floor_x = K_ROUND * EPS * (done + 4) * sx
-        floor_v = K_ROUND * EPS * (done + 4) * sv
+        floor_x = K_ROUND * EPS * 5 * max(1, n_in) * (done + 4) * sx
+        floor_v = K_ROUND * EPS * 5 * max(1, n_in) * (done + 4) * sv
         tolx = EOS_SAFETY * 2.0 * (eax + ebx) + floor_x
         tolv = EOS_SAFETY * 2.0 * (eav + ebv) + floor_v
         ctx.stat_max("ratio_x", dx / tolx)
@@ -428,12 +461,16 @@ def run_keep(case, ctx):
             os.unlink(p)
 
     def reference(k):
-        """untouched run stopped after k steps and synchronised there"""
+        """untouched run stopped after k steps and synchronised there (same flags), and the same without the
+        keep-unsynchronised option: what a plain deferred run reports at that time"""
         R = make(case, extra)
+        R0 = make(case, extra[:-1])
         if k:
             R.steps(k)
+            R0.steps(k)
         R.synchronize()
-        return rb.pstate(R), R.t
+        R0.synchronize()
+        return rb.pstate(R), R.t, rb.pfloat(R0)
 
     D = make(case, extra)
     if case["auto_archive"]:
@@ -469,7 +506,7 @@ def run_keep(case, ctx):
             do_op(D, o, ctx, None)
             ctx.cls("op:" + o)
             if o in ("sync", "sync2"):
-                want, tw = reference(done)
+                want, tw, plain = reference(done)
                 got = rb.pstate(D)
                 if D.steps_done != done or rb.dbits(D.t) != rb.dbits(tw):
                     raise Violation("run with intermediate operations is at t=%r after %d steps, untouched run at t=%r"
@@ -480,6 +517,20 @@ def run_keep(case, ctx):
                     raise Violation("%s keep_unsynchronized: output after %d steps (%d earlier operations) differs from "
                                     "the output of an untouched run stopped there: particles %s" % (fam, done, nops, bad),
                                     steps=done, earlier_ops=nops, particles=bad, got=pf[bad[0]][:6])
+                # the output itself is the synchronised state (to rounding) of a plain deferred run
+                pf = rb.pfloat(D)
+                sx, sv = scales(plain)
+                dx, dv = maxdiff(plain, pf)
+                cond = ops_per_step(case["cfg"]) * (done + 4)
+                tolx = K_ROUND * EPS * cond * sx
+                tolv = K_ROUND * EPS * cond * sv
+                ctx.stat_max("output_ratio", max(dx / tolx, dv / tolv))
+                if dx or dv:
+                    ctx.cls("output_not_bitwise_plain")
+                if dx > tolx or dv > tolv:
+                    raise Violation("%s keep_unsynchronized: output after %d steps is not the synchronised state: differs "
+                                    "from a deferred run without the option by dx=%.3g (tol %.3g) dv=%.3g (tol %.3g)"
+                                    % (fam, done, dx, tolx, dv, tolv), steps=done)
                 if nops >= 1 and n >= 2:
                     nontrivial = True
             nops += 1
